@@ -53,8 +53,13 @@ fn int_text_value(t: &[u8]) -> Option<i128> {
 }
 
 fn report(kind: &str, d: &[u8], off: usize, observed: String, expected: &str) -> ! {
-    println!("{{\"found\": true, \"kind\": \"{}\", \"input_hex\": \"{}\", \"offset\": {}, \"observed\": {:?}, \"expected\": {:?}}}",
-             kind, hex(d), off, observed, expected);
+    let props = match kind {
+        "parse-panic" | "check-panic" | "length-disagreement" | "integer-value" | "bulk-length" | "array-length" => "C07,C10",
+        "roundtrip" | "roundtrip-check" | "prefix-parse" | "prefix-check" => "C08",
+        _ => "C08,C06",
+    };
+    println!("{{\"found\": true, \"kind\": \"{}\", \"props\": \"{}\", \"input_hex\": \"{}\", \"offset\": {}, \"observed\": {:?}, \"expected\": {:?}}}",
+             kind, props, hex(d), off, observed, expected);
     std::process::exit(0)
 }
 
@@ -259,8 +264,9 @@ mod store {
     use std::collections::BTreeMap;
 
     fn b(s: &str) -> Bytes { Bytes::copy_from_slice(s.as_bytes()) }
-    pub fn report(kind: &str, history: &str, observed: String, expected: &str) -> ! {
-        println!("{{\"found\": true, \"kind\": \"{}\", \"history\": {:?}, \"observed\": {:?}, \"expected\": {:?}}}", kind, history, observed, expected);
+    /// `props`: the properties whose statement the observation contradicts
+    pub fn report(kind: &str, props: &str, history: &str, observed: String, expected: &str) -> ! {
+        println!("{{\"found\": true, \"kind\": \"{}\", \"props\": {:?}, \"history\": {:?}, \"observed\": {:?}, \"expected\": {:?}}}", kind, props, history, observed, expected);
         std::process::exit(0)
     }
     fn conf(dir: &std::path::Path, max: u64) -> Config {
@@ -294,28 +300,44 @@ mod store {
         // a failed set / del may or may not have taken effect (C20): the alternative value of such a key
         let mut alt: BTreeMap<String, Option<String>> = BTreeMap::new();
         let hist = ops.join("; ");
+        let (mut had_merge, mut had_reopen, mut had_fault) = (false, false, false);
+        // a panic inside a store operation: reported with the history that led to it
+        let hist2 = hist.clone();
+        let cur_op = std::sync::Arc::new(std::sync::Mutex::new(String::new()));
+        let cur2 = cur_op.clone();
+        std::panic::set_hook(Box::new(move |info| {
+            let op = cur2.lock().map(|g| g.clone()).unwrap_or_default();
+            println!("{{\"found\": true, \"kind\": \"panic\", \"props\": \"C01,C04\", \"history\": {:?}, \"observed\": {:?}, \"expected\": \"every operation returns a result\"}}",
+                     hist2, format!("{} panicked: {}", op, info));
+            std::process::exit(0);
+        }));
         for (i, op) in ops.iter().enumerate() {
+            *cur_op.lock().unwrap() = format!("op {} `{}`", i, op);
+            // which properties a wrong read contradicts at this point of the history
+            let rp = format!("C01{}{}{}", if had_reopen { ",C02" } else { "" }, if had_merge { ",C05,C12" } else { "" }, if had_fault { ",C20" } else { "" });
+            let rp = rp.as_str();
             let h = kv.as_ref().unwrap().get_handle();
             let p: Vec<&str> = op.split(' ').collect();
             match p[0] {
-                "set" => { match h.set(b(p[1]), b(p[2])) { Ok(()) => { model.insert(p[1].into(), p[2].into()); alt.remove(p[1]); } Err(e) => { println!("# op {} `{}` failed: {}", i, op, e); alt.insert(p[1].into(), Some(p[2].into())); } } }
+                "set" => { match h.set(b(p[1]), b(p[2])) { Ok(()) => { model.insert(p[1].into(), p[2].into()); alt.remove(p[1]); } Err(e) => { println!("# op {} `{}` failed: {}", i, op, e); alt.insert(p[1].into(), Some(p[2].into())); had_fault = true; } } }
                 "del" => { match h.del(b(p[1])) {
-                    Ok(was) => { let exp = model.remove(p[1]).is_some(); let unsure = alt.remove(p[1]).is_some(); if was != exp && !unsure { report(label, &hist, format!("op {} `{}` returned {}", i, op, was), &format!("{}", exp)); } }
-                    Err(e) => { println!("# op {} `{}` failed: {}", i, op, e); alt.insert(p[1].into(), None); } } }
+                    Ok(was) => { let exp = model.remove(p[1]).is_some(); let unsure = alt.remove(p[1]).is_some(); if was != exp && !unsure { report(label, rp, &hist, format!("op {} `{}` returned {}", i, op, was), &format!("{}", exp)); } }
+                    Err(e) => { println!("# op {} `{}` failed: {}", i, op, e); alt.insert(p[1].into(), None); had_fault = true; } } }
                 "get" => { let got = h.get(b(p[1])).map(|o| o.map(|v| String::from_utf8_lossy(&v).to_string())); let exp = model.get(p[1]).cloned();
-                    match got { Ok(g) if g == exp => {}, Ok(g) if alt.get(p[1]) == Some(&g) => {}, other => report(label, &hist, format!("op {} `{}` returned {:?}; files {:?}", i, op, other, files(dir.path())), &format!("{:?}", exp)) } }
-                "merge" => { if let Err(e) = h.verif_merge() { println!("# op {} merge failed: {}", i, e); } }
-                "reopen" => { drop(h); kv = None; std::thread::sleep(std::time::Duration::from_millis(30));
-                    match mk(dir.path()).open() { Ok(k) => kv = Some(k), Err(e) => report(label, &hist, format!("op {} reopen failed: {}; files {:?}", i, e, files(dir.path())), "the directory can be opened") } }
+                    match got { Ok(g) if g == exp => {}, Ok(g) if alt.get(p[1]) == Some(&g) => {}, other => report(label, rp, &hist, format!("op {} `{}` returned {:?}; files {:?}", i, op, other, files(dir.path())), &format!("{:?}", exp)) } }
+                "merge" => { had_merge = true; if let Err(e) = h.verif_merge() { println!("# op {} merge failed: {}", i, e); had_fault = true; } }
+                "reopen" => { had_reopen = true; drop(h); kv = None; std::thread::sleep(std::time::Duration::from_millis(30));
+                    match mk(dir.path()).open() { Ok(k) => kv = Some(k), Err(e) => report(label, if had_fault { "C02,C20" } else { "C02" }, &hist, format!("op {} reopen failed: {}; files {:?}", i, e, files(dir.path())), "the directory can be opened") } }
                 "precreate-data" => { std::fs::File::create(dir.path().join(format!("{}.bitcask.data", p[1]))).unwrap(); }
                 "precreate-hint" => { std::fs::File::create(dir.path().join(format!("{}.bitcask.hint", p[1]))).unwrap(); }
                 "checkall" => { for (k, v) in model.iter() { if alt.contains_key(k) { continue; } let got = h.get(b(k)).map(|o| o.map(|v| String::from_utf8_lossy(&v).to_string()));
-                    match got { Ok(Some(g)) if &g == v => {}, other => report(label, &hist, format!("op {} checkall: key {} reads {:?}; files {:?}", i, k, other, files(dir.path())), v) } } }
+                    match got { Ok(Some(g)) if &g == v => {}, other => report(label, rp, &hist, format!("op {} checkall: key {} reads {:?}; files {:?}", i, k, other, files(dir.path())), v) } } }
                 "checkstats" => { let (kd, st) = h.verif_dump();
                     // ground truth from the key directory: live count per file
                     let mut live: BTreeMap<u64, u64> = BTreeMap::new();
                     for (_, f, _, _) in kd.iter() { *live.entry(*f).or_default() += 1; }
-                    for (f, l, _d, _b) in st.iter() { let exp = live.get(f).cloned().unwrap_or(0); if *l != exp { report(label, &hist, format!("op {} file {} live_keys {} (stats {:?})", i, f, l, st), &format!("{}", exp)); } } }
+                    for (f, l, _d, _b) in st.iter() { let exp = live.get(f).cloned().unwrap_or(0); if *l != exp { report(label, "C19", &hist, format!("op {} file {} live_keys {} (stats {:?})", i, f, l, st), &format!("{}", exp)); } }
+                    for (f, n) in live.iter() { if !st.iter().any(|(g, _, _, _)| g == f) { report(label, "C19", &hist, format!("op {} file {} holds {} live keys but has no statistics entry (stats {:?})", i, f, n, st), "an entry with that live count"); } } }
                 _ => panic!("bad op {}", op),
             }
         }
@@ -383,13 +405,13 @@ mod store {
         let now = h.get(b("k2"));
         drop(h); drop(kv); std::thread::sleep(std::time::Duration::from_millis(30));
         match conf(dir.path(), 1 << 30).open() {
-            Err(e) => report("torn-append", hist, format!("reopen failed: {}", e), "the directory can be opened and k2 reads v2"),
+            Err(e) => report("torn-append", "C20,C03", hist, format!("reopen failed: {}", e), "the directory can be opened and k2 reads v2"),
             Ok(kv2) => {
                 let h2 = kv2.get_handle();
                 let after = h2.get(b("k2")).map(|o| o.map(|v| String::from_utf8_lossy(&v).to_string()));
                 let a = h2.get(b("a")).map(|o| o.map(|v| String::from_utf8_lossy(&v).to_string()));
                 if !matches!(&after, Ok(Some(v)) if v == "v2") || !matches!(&a, Ok(Some(v)) if v == "1") {
-                    report("torn-append", hist, format!("before restart get k2 = {:?}; after restart get k2 = {:?}, get a = {:?}", now.map(|o| o.is_some()), after, a), "k2 = v2 and a = 1 after the restart");
+                    report("torn-append", "C20,C03", hist, format!("before restart get k2 = {:?}; after restart get k2 = {:?}, get a = {:?}", now.map(|o| o.is_some()), after, a), "k2 = v2 and a = 1 after the restart");
                 }
             }
         }
